@@ -382,6 +382,14 @@ PeerClose ==
   /\ st' = ClosedSt(st)
   /\ Emit(Cmd("EOF", ""), <<>>, CloseCbs(st))
 
+\* the peer vanishes (transport torn down in both directions, under TLS without
+\* a close_notify): whatever the server still writes is lost, and closing the
+\* transport itself may fail - the session is ended exactly as for an orderly close
+PeerAbort ==
+  /\ ~st.closed /\ "quit" \in Alphabet
+  /\ st' = ClosedSt(st)
+  /\ Emit(Cmd("EOF", "abort"), <<>>, CloseCbs(st))
+
 \* nothing arrives within ReadTimeout while the server waits for a command
 \* line: 421 4.4.2 and the connection is closed
 IdleTimeout ==
@@ -539,7 +547,7 @@ Next ==
   \/ BdatAny
   \/ Rset \/ Noop \/ Vrfy \/ Unimpl
   \/ \E v \in {"unknown", "empty", "short", "nospace"} : BadLine(v)
-  \/ Quit \/ PeerClose \/ LongLine \/ IdleTimeout \/ PanicMail \/ DataPanic \/ AfterClose
+  \/ Quit \/ PeerClose \/ PeerAbort \/ LongLine \/ IdleTimeout \/ PanicMail \/ DataPanic \/ AfterClose
   \/ \E over \in BOOLEAN : DataCut(over)
   \/ \E n \in ChunkSizes, l \in BOOLEAN, p \in {"", "acc", "rej", "early", "panic"}, some \in BOOLEAN : BdatCut(n, l, p, some)
   \/ \E ir \in {"none", "empty", "bytes"}, nchal \in 0..2, fin \in {"ok", "fail"} : AuthStart(ir, nchal, fin)
